@@ -406,6 +406,14 @@ def section_names(serif, out):
     out.append("")
 
 
+def section_keywords(serif, out):
+    """Python's keywords (the interpreter running the checks): an accessor that is one cannot be written after a dot (C17)"""
+    import keyword
+    out.append("/-- `keyword.kwlist` of the running interpreter -/")
+    out.append("def pyKeywords : List String := " + lean_list([lean_str(k) for k in sorted(keyword.kwlist)], 8))
+    out.append("")
+
+
 def _promotable_observed():
     """the (current kind, required kind) pairs `Vector.__setitem__` widens by, read off its behaviour: a one-element vector of
     kind a is assigned a value of kind b; the pair counts when the write is accepted and the vector then reports kind b.
